@@ -337,8 +337,13 @@ def run(prog: Program, res: Result) -> None:  # noqa: PLR0912, PLR0915
     if cp is not None:
         txt = norm(cp.node, 4000)
         what = "copy(carry_loop_iterations=True) carries product(loop lengths) * carry"
-        if "reduce(mul, (loop.length for loop in self.loops), self.loop_iteration_carry)" in txt:
-            res.ok("C06.R4", f"{cp.file}:{cp.node.lineno} RenderContext.copy", what, "reduce(mul, lengths, self.loop_iteration_carry)")
+        guard_ok = False
+        for n in ast.walk(cp.node):
+            if isinstance(n, ast.If) and any(isinstance(b, ast.Assign) and norm(b.targets[0]) == "loop_iteration_carry" and "reduce(mul" in norm(b.value) for b in n.body):
+                # the carry may be reset to 1 only when the caller did not ask for it: the test is exactly the flag
+                guard_ok = norm(n.test) == "carry_loop_iterations" and len(n.orelse) == 1 and norm(n.orelse[0]) == "loop_iteration_carry = 1"
+        if "reduce(mul, (loop.length for loop in self.loops), self.loop_iteration_carry)" in txt and guard_ok:
+            res.ok("C06.R4", f"{cp.file}:{cp.node.lineno} RenderContext.copy", what, "if carry_loop_iterations: reduce(mul, lengths, self.loop_iteration_carry) else 1")
         else:
             res.fail("C06.R4", file=cp.file, line=cp.node.lineno, qualname="RenderContext.copy", construct="loop_iteration_carry computation", message="copied contexts no longer carry the product of the active loop lengths", what=what)
         # render/include tags that loop must carry
